@@ -1123,19 +1123,75 @@ def check_truncate(ctx, ref, cfg, row_perm='random', only=None):
                                                     'new_hierarchy': bad}))
 
 
-def check_merge(ctx, ref, cfg, rng, subsets=None, row_perm='random'):
+def merge_plan(rng, ref):
+    """3-5 per-dataset cell sets with designed win / lose patterns: one
+    dataset with the most cells overall, datasets that hold the largest
+    population of some cluster, datasets that win NO cluster (strictly fewer
+    cells than another dataset in every cluster), exact ties; the file names
+    are dealt out at random so that every sorted-path order of the roles
+    occurs (a dominated dataset before a winner, the largest one first /
+    last / in the middle)"""
+    labelled = [nm for nm in ref.names if ref.label[nm] is not None]
+    by = {}
+    for nm in labelled:
+        by.setdefault(ref.label[nm], []).append(nm)
+    r = rng.random()
+    if r < 0.25 or len(labelled) < 4:
+        n_sets = rng.choice([1, 2, 3, 4])
+        subsets = [sorted(rng.sample(labelled, rng.randint(1, len(labelled))))
+                   for _ in range(n_sets)]
+        if n_sets >= 2 and rng.random() < 0.5:
+            subsets[1] = list(subsets[0])     # full tie
+    else:
+        n_sets = rng.choice([3, 3, 4, 4, 5])
+        rare = [c for c in by if len(by[c]) >= 2]
+        rng.shuffle(rare)
+        n_win = rng.randint(1, max(1, min(len(rare), n_sets - 2)))
+        rare = rare[:n_win]
+        big = []
+        for c, cells in by.items():
+            if c in rare:
+                big += rng.sample(cells, rng.randint(0, len(cells) - 1))
+            else:
+                big += cells
+        if not big:
+            big = list(labelled[:1])
+        subsets = [sorted(big)]
+        bigc = {c: [x for x in big if ref.label[x] == c] for c in by}
+        for c in rare:
+            w = list(by[c])
+            for c2, cells in bigc.items():
+                if c2 != c and len(cells) > 1 and rng.random() < 0.5:
+                    w += rng.sample(cells, rng.randint(0, len(cells) - 1))
+            subsets.append(sorted(w))
+        while len(subsets) < n_sets:
+            # wins nothing: strictly below the big dataset in every cluster
+            dom = []
+            for c, cells in bigc.items():
+                if len(cells) > 1:
+                    dom += rng.sample(cells, rng.randint(0, len(cells) - 1))
+            if not dom:
+                dom = list(subsets[0])       # nothing smaller exists: a tie
+            subsets.append(sorted(dom))
+        order = list(range(len(subsets)))
+        rng.shuffle(order)
+        subsets = [subsets[i] for i in order]
+    pool = ['ds_a.h5', 'ds_b.h5', 'ds_c.h5', 'ds_d.h5', 'ds_e.h5', 'Ds_A.h5']
+    names = rng.sample(pool, len(subsets))
+    return subsets, names
+
+
+def check_merge(ctx, ref, cfg, rng, subsets=None, row_perm='random',
+                names=None):
     from cell_type_mapper.diff_exp.precompute_utils import (
         merge_precompute_files)
     tol = tol_of(cfg)
     labelled = [nm for nm in ref.names if ref.label[nm] is not None]
     if subsets is None:
-        n_sets = rng.choice([1, 2, 3])
-        subsets = []
-        for i in range(n_sets):
-            k = rng.randint(1, len(labelled))
-            subsets.append(sorted(rng.sample(labelled, k)))
-        if n_sets >= 2 and rng.random() < 0.5:
-            subsets[1] = list(subsets[0])     # full tie
+        subsets, names = merge_plan(rng, ref)
+    if names is None:
+        names = ['ds_b.h5', 'ds_a.h5', 'ds_c.h5', 'ds_d.h5', 'ds_e.h5'][
+            :len(subsets)]
     n_sets = len(subsets)
     if row_perm == 'random':
         row_perm = random_perm(rng, len(ref.leaves)) \
@@ -1143,11 +1199,11 @@ def check_merge(ctx, ref, cfg, rng, subsets=None, row_perm='random'):
     ctx.count('merge-rows:%s' % ('permuted' if row_perm is not None
                                  else 'alphabetical'))
     detail = ref_detail(ref, cfg, {'kind': 'merge', 'subsets': subsets,
-                                   'row_perm': row_perm})
+                                   'row_perm': row_perm,
+                                   'file_names': names})
     with pipeline.workdir('c09m_') as d:
         paths = []
         per = []
-        names = ['ds_b.h5', 'ds_a.h5', 'ds_c.h5']
         for i, sub in enumerate(subsets):
             sd = pathlib.Path(d) / ('set%d' % i)
             sd.mkdir()
@@ -1486,7 +1542,8 @@ def replay(ctx, data, from_corpus=False):
     elif kind == 'merge':
         check_merge(ctx, ref, cfg, None, subsets=d.get('subsets'),
                     row_perm=d.get('row_perm', list(
-                        reversed(range(len(ref.leaves))))))
+                        reversed(range(len(ref.leaves))))),
+                    names=d.get('file_names'))
     elif kind == 'read':
         check_read(ctx, ref, cfg, row_perm=d.get('row_perm', list(
             reversed(range(len(ref.leaves))))))
